@@ -18,8 +18,8 @@ META = {
     "under a reference future (self-composition by substitution); it also checks that no branch decided before the end of bar k mentions a "
     "future variable. After the run every cell of the supplied market and price frames is proved equal to its pre-run value (nested order-book "
     "lists by deep comparison), which is what makes a repeated run on the same inputs reproduce the result.",
-    "bounds": ["N <= 4 bars (quick) / 6 (thorough), every split point k < N - 1", "one market type at a time: Uniswap v3 LP, Squeeth with its oSQTH pool (TWAP window, 1-minute and resampled 5-minute bars), Deribit (hourly book next to minutely Uniswap data resampled to 1 h, with and without a missing hourly snapshot), Aave v3", "the scripted strategies listed in the scenario names"],
-    "outside": ["GMX v1 / v2 frames (their per-bar lookup is the same data.loc[timestamp] mechanism; not driven here)", "an explicit second run on the same frame objects (implied by the cell-by-cell inputs-intact obligation)", "indicator columns added by user strategies", "histories longer than N", "symbolic future ticks enter the price helper through a stub (uninterpreted function of the tick): get_sqrt_ratio_at_tick on a symbolic tick is out of reach (DESIGN 3.5)"],
+    "bounds": ["N <= 4 bars (quick) / 6 (thorough), every split point k < N - 1", "one market type at a time: Uniswap v3 LP, Squeeth with its oSQTH pool (TWAP window, 1-minute and resampled 5-minute bars), Deribit (hourly book next to minutely Uniswap data resampled to 1 h, with and without a missing hourly snapshot), Aave v3, GMX v1", "the scripted strategies listed in the scenario names"],
+    "outside": ["GMX v2 frames (the per-bar lookup is the same data.loc[timestamp] mechanism as in the GMX v1 world; not driven here)", "an explicit second run on the same frame objects (implied by the cell-by-cell inputs-intact obligation)", "indicator columns added by user strategies", "histories longer than N", "symbolic future ticks enter the price helper through a stub (uninterpreted function of the tick): get_sqrt_ratio_at_tick on a symbolic tick is out of reach (DESIGN 3.5)"],
     "assumptions": ["a look-ahead shows as a syntactic or solver-confirmed dependence of an output term (or of a branch condition) on a future variable; values are replayed as two concrete runs that share the prefix"],
 }
 UNI_SHADOWS = bars.ACTUATOR_SHADOWS
@@ -311,6 +311,50 @@ def _aave_script(w, p, log):
     return Script
 
 
+def _gmx1_world(ctx, p, fut):
+    """GMX v1: one pool row per bar (rows > k symbolic in price, AUM, supply, reward interval and the token's USDG amount)"""
+    from demeter import MarketInfo, MarketTypeEnum, TokenInfo
+    from demeter.gmx import GmxMarket
+    from demeter.gmx.helper import get_price_from_data
+    from demeter._typing import USD
+    from .c17 import v1_row
+
+    n, k = p["bars"], p["k"]
+    idx = pd.date_range(bars.START, periods=n, freq="1min")
+    rows = []
+    for i in range(n):
+        row = dict(v1_row("csv", "weth"))
+        row["weth_usdg"] = row["weth_usdg"] + 10**18 * i
+        if i > k:
+            row["glp_price"] = fut.cell(f"f{i}_glp_price", "dec", D("0.5"), D("1.5"), row["glp_price"])
+            row["weth_price"] = fut.cell(f"f{i}_weth_price", "dec", D(10) ** 33, D(4) * D(10) ** 33, row["weth_price"])
+            row["wavax_price"] = fut.cell(f"f{i}_wavax_price", "dec", D(10) ** 31, D(5) * D(10) ** 31, row["wavax_price"])
+            row["interval"] = fut.cell(f"f{i}_interval", "float", 10**14, 10**16, row["interval"])
+            row["weth_usdg"] = fut.cell(f"f{i}_weth_usdg", "int", 10**23, 10**25, row["weth_usdg"])
+        rows.append(row)
+    df = pd.DataFrame(rows, index=idx).astype(object)
+    toks = {"weth": TokenInfo("weth", 18), "wavax": TokenInfo("wavax", 18), "usdc": TokenInfo("usdc", 6)}
+    m = GmxMarket(MarketInfo("gmx", MarketTypeEnum.gmx_v1), tokens=list(toks.values()), data=df)
+    prices = get_price_from_data(df)
+    return dict(markets=[m], frames=[("gmx.data", df)], prices=prices, quote=USD, balances={toks["weth"]: D(10), toks["wavax"]: D(0)}, m=m, weth=toks["weth"])
+
+
+def _gmx1_script(w, p, log):
+    from demeter import Strategy
+
+    m, k = w["m"], p["k"]
+
+    class Script(Strategy):
+        def on_bar(self, snapshot):
+            i = snapshot.row_id
+            if i == 0:
+                log(i, "on_bar.glp_bought", m.buy_glp(w["weth"], D("1.5")))
+            elif i == k:
+                log(i, "on_bar.weth_redeemed", m.sell_glp(w["weth"], m.glp_amount / 2))
+
+    return Script
+
+
 SQUEETH_SHADOWS = tuple(dict.fromkeys(bars.ACTUATOR_SHADOWS + ("demeter.squeeth.market", "demeter.squeeth.helper", "demeter.squeeth._typing")))
 DERIBIT_SHADOWS = tuple(dict.fromkeys(bars.ACTUATOR_SHADOWS + ("demeter.deribit.market", "demeter.deribit.helper", "demeter.deribit._typing")))
 AAVE_SHADOWS = tuple(dict.fromkeys(bars.ACTUATOR_SHADOWS + ("demeter.aave.market", "demeter.aave.core", "demeter.aave.helper", "demeter.aave._typing")))
@@ -319,6 +363,7 @@ WORLDS = {
     "squeeth": (_squeeth_world, _squeeth_script, SQUEETH_SHADOWS),
     "deribit": (_deribit_world, _deribit_script, DERIBIT_SHADOWS),
     "aave": (_aave_world, _aave_script, AAVE_SHADOWS),
+    "gmx1": (_gmx1_world, _gmx1_script, tuple(dict.fromkeys(bars.ACTUATOR_SHADOWS + ("demeter.gmx.market", "demeter.gmx.helper")))),
 }
 
 
